@@ -147,7 +147,7 @@ M("c09-infer-anchor-repeatable", "C09", [(PRE, """            pattern, flags=__c
             return _Type.Assertion, False""", """            pattern, flags=__class__.__flags) is not None:
             return _Type.Assertion, True""")], rule="R-FLAGSRC")
 M("c09-infer-other-nonrepeatable", "C09", [(PRE, "        return _Type.Other, True", "        return _Type.Other, False")], rule="R-FLAGSRC")
-M("c09-recogniser-drops-Z", "C09", [(PRE, r"""(?:\^|\\A|\(\?<=.+\)).+|.+(?:\$|\\Z|\(\?=.+\))""", r"""(?:\^|\\A|\(\?<=.+\)).+|.+(?:\$|\(\?=.+\))""")], rule="R-RECOG")
+M("c09-recogniser-drops-Z", "C09", [(PRE, r"""(?:\^|\\A|\(\?<=.+\)).+|.+(?:(?<!\\)\$|\\Z|\(\?=.+\))""", r"""(?:\^|\\A|\(\?<=.+\)).+|.+(?:(?<!\\)\$|\(\?=.+\))""")], rule="R-RECOG")
 M("c09-emitter-drifts", "C09", [(PRE, '''return __class__(f"\\\\A{self._assert_conditional_group()}", escape=False)''', '''return __class__(f"(?:\\\\A){self._assert_conditional_group()}", escape=False)''')], rule="R-RECOG")
 M("c09-flag-written-elsewhere", "C09", [(PRE, """    def _is_repeatable(self) -> bool:""", """    def _set_repeatable(self) -> None:
         self.__repeatable = True
@@ -705,3 +705,11 @@ M("c06-collapse-no-reescape", "C06", [(CLS, """lambda m: str(__class__._to_prege
             if len(m.group(1)) == 1 else m.group(1), simplified_pattern)""", """lambda m: m.group(1), simplified_pattern)""")], rule="R-PIPELINE")
 M("c06-shorthand-digit-always", "C06", [(CLS, "        elif classes.issuperset(digit_set):", "        elif classes.issuperset(digit_set) or '0-8' in classes:")], expect="silent")
 M("c06-chars-to-ranges-off-by-one", "C06", [(CLS, "                    if ord(start) == ord(c_j) + 1:\n                        chars[i] = c_j + end", "                    if ord(start) == ord(c_j) + 2:\n                        chars[i] = c_j + end")], rule="R-PIPELINE")
+
+# ---------------------------------------------------------------- compose (C02 R-COMPOSE / C09 R-REPEAT-LIT)
+M("compose-escaped-bracket-class", "C02", [(PRE, 'pattern = _re.sub(r"(?<!\\\\)\\[.+?(?<!\\\\)\\]", "[a]", pattern)', 'pattern = _re.sub(r"\\[.+?(?<!\\\\)\\]", "[a]", pattern)')], rule="R-COMPOSE")
+M("compose-escaped-dollar-anchor", "C09", [(PRE, '.+(?:(?<!\\\\)\\$|\\\\Z|\\(\\?=.+\\))', '.+(?:\\$|\\\\Z|\\(\\?=.+\\))')], rule="R-REPEAT-LIT")
+M("compose-alternation-split-escaped", "C02", [(PRE, 'if len(_re.split(pattern=r"(?<!\\\\)\\|", string=temp)) > 1:', 'if len(_re.split(pattern=r"\\|", string=temp)) > 2:')], rule="R-COMPOSE")
+M("compose-backslash-pairs-not-neutralised", ["C02"], [(PRE, '        pattern = _re.sub(r"\\\\{2}", "a", pattern)\n', '')], rule="R-COMPOSE")
+M("compose-quantifier-recogniser-drops-lazy", ["C02", "C04"], [(PRE, 'r"(?:\\\\.|[^\\\\])?(?:\\?|\\*|\\+|\\{(?:\\d+|\\d+,|,\\d+|\\d+,\\d+)\\})"', 'r"(?:\\\\.|[^\\\\])?(?:\\*|\\+|\\{(?:\\d+|\\d+,|,\\d+|\\d+,\\d+)\\})"')], expect="silent")  # 'a?' then typed Other: still grouped when quantified
+M("compose-is-group-ignores-escapes", "C02", [(PRE, '                    if prev_char != "\\\\": ', '                    if True: ')], rule="R-COMPOSE")
